@@ -21,6 +21,7 @@ from __future__ import annotations
 
 import hashlib
 import importlib.util
+import os
 import json
 import sys
 import time
@@ -184,19 +185,44 @@ class Renderer:
             lines.append("    pass")
         return "\n".join(lines) + "\n"
 
-    def module(self, d):
-        top = self.cls(d)
-        src = ("from pyiron_workflow.nodes.macro import as_macro_node\n"
-               "from harness.props.c09 import FN\n\n\n" + "\n\n".join(self.chunks) + f"\n\nTOP = {top!r}\n")
+    def render_class(self, d, name, parent):
+        """class-based definition: `class name(parent): [_output_labels = ...]; def graph_creator(self, ...)`"""
+        body_cls = [None if e[1] is None else self.cls(e[1]) for e in d["body"]]
+        fn = self.render(d, "graph_creator", body_cls).split("\n")[1:]          # drop the decorator line
+        lines = [f"class {name}({parent}):"]
+        if not d.get("scrape"):
+            labels = "None" if not d["rets"] else "(" + ", ".join(json.dumps(r[0]) for r in d["rets"]) + ",)"
+            lines.append(f"    _output_labels = {labels}")
+        lines += ["    " + ln if ln else ln for ln in fn]
+        return "\n".join(lines) + "\n"
+
+    def module(self, d, base=None):
+        if base is None:
+            top = self.cls(d)
+            extra = ""
+        else:
+            chunk_b = self.render_class(base, "Base", "Macro")
+            chunk_d = self.render_class(d, "Derived", "Base")
+            self.chunks += [chunk_b, chunk_d]
+            top = "Derived"
+            extra = "BASE = 'Base'\n"
+        src = ("from pyiron_workflow.nodes.macro import Macro, as_macro_node\n"
+               "from harness.props.c09 import FN\n\n\n" + "\n\n".join(self.chunks) + f"\n\nTOP = {top!r}\n" + extra)
         return src
 
 
 _MODS: dict = {}
 
 
-def load_module(src):
+_FRESH = [0]
+
+
+def load_module(src, fresh=False):
     h = hashlib.sha1(src.encode()).hexdigest()[:16]
     name = f"c09m_{h}"
+    if fresh:            # class-level history matters: never reuse classes another scenario has touched
+        _FRESH[0] += 1
+        name = f"c09m_{h}_{os.getpid()}_{_FRESH[0]}"
     if name in _MODS:
         return _MODS[name]
     GEN.mkdir(parents=True, exist_ok=True)
@@ -472,10 +498,11 @@ def inlined_workflow(mod_top, d, args, tag):
 # =============================================================================================
 def run_impl(case):
     d, ops = case["d"], case["ops"]
+    base = case.get("base")
     r = Renderer()
-    src = r.module(d)
+    src = r.module(d, None if base is None else base["d"])
     try:
-        mod = load_module(src)
+        mod = load_module(src, fresh=base is not None)
     except ValueError:
         return [["ValueError"], {"stage": "define"}]
     except Exception as e:                      # noqa
@@ -485,6 +512,13 @@ def run_impl(case):
     def cls_of(sub):
         return getattr(mod, r.names[json.dumps(sub, sort_keys=True)])
 
+    base_cls = getattr(mod, mod.BASE) if base is not None else None
+    if base is not None and base["first"] == "base":
+        try:                                     # history: the parent class is previewed and used first
+            base_cls.preview_io()
+            base_cls(label="b")
+        except Exception as e:                  # noqa
+            return [["EXC-base", type(e).__name__, str(e)[:200]], {}]
     try:
         m = top(label="m")
     except ValueError:
@@ -493,10 +527,26 @@ def run_impl(case):
         return [["EXC-construct", type(e).__name__, str(e)[:200]], {}]
     static = snap_static(m)
     extras = {"struct": structure_facts(m, d), "links0": link_facts(m, d), "steps": []}
+    if base is not None:
+        try:                                     # control: the parent class keeps ITS interface
+            from pyiron_workflow.channels import NOT_DATA
+            extras["base_preview"] = [
+                [[k, _hint(h), _val(df) if df is not NOT_DATA else None] for k, (h, df) in base_cls.preview_inputs().items()],
+                list(base_cls.preview_outputs().keys())]
+        except Exception as e:                  # noqa
+            extras["base_preview"] = ["EXC", type(e).__name__]
     steps = []
     dyn0 = snap_dyn(m)
     for t, op in enumerate(ops):
         ex = {}
+        if op[0] != "run":
+            try:                                 # the channel the operation names must exist
+                _n = resolve(m, op[1])
+                _ = (list(_n.inputs.labels) if op[0] in ("in", "bad") else list(_n.outputs))[op[2]]
+            except (LookupError, IndexError, TypeError):
+                steps.append(["no-such-channel"])
+                extras["steps"].append({"missing": True})
+                break
         if op[0] == "run":
             ins = [c.value for c in m.inputs]
             CALLS[0] = 0
@@ -514,11 +564,25 @@ def run_impl(case):
             calls = CALLS[0]
             steps.append(["ok", calls, snap_dyn(m)])
             ex["outs"] = [_val(c.value) for c in m.outputs]
-            if all(v is not None for v in ex["ins"]):
+            if all(v is not None and isinstance(v[0], int) for v in ex["ins"]):
                 try:
                     ex["inl"] = inlined_workflow(cls_of, d, [v[0] for v in ex["ins"]], t)
                 except Exception as e:          # noqa
                     ex["inl"] = ["EXC", type(e).__name__]
+        elif op[0] == "bad":
+            node = resolve(m, op[1])
+            before = snap_dyn(m)
+            try:
+                node.inputs[list(node.inputs.labels)[op[2]]] = "not-an-int"
+            except TypeError:
+                after = snap_dyn(m)
+                steps.append(["TypeError", after])
+                ex["unchanged"] = after == before
+            else:
+                steps.append(["accepted"])
+                ex["accepted"] = True
+                extras["steps"].append(ex)
+                break
         else:
             node = resolve(m, op[1])
             if op[0] == "in":
@@ -570,11 +634,29 @@ def coq_path(p):
 def coq_op(op):
     if op[0] == "run":
         return "ORun"
+    if op[0] == "bad":
+        return f"OSetBad {coq_path(op[1])} {cn(op[2])}"
     return f"{'OSetIn' if op[0] == 'in' else 'OSetOut'} {coq_path(op[1])} {cn(op[2])} {cz(op[3])}"
 
 
+def inherited_labels(case):
+    """known finding C09-scraped-labels-inherited: the labels the derived class ends up with, when they
+    are not its own (None = own labels)"""
+    base = case.get("base")
+    if base is None or not (case["d"].get("scrape") and base["d"].get("scrape") and base["first"] == "base"):
+        return None
+    mine, theirs = [r[0] for r in case["d"]["rets"]], [r[0] for r in base["d"]["rets"]]
+    return None if (mine == theirs or not theirs) else theirs
+
+
 def model_term(case):
-    return f"oscenario {coq_def(case['d'])} {cl(coq_op(o) for o in case['ops'])}"
+    d = case["d"]
+    inh = inherited_labels(case)
+    if inh is not None:        # faithful to the code: the parent's scraped labels are found on the class first
+        if len(inh) != len(d["rets"]):
+            return 'OL [OS "ValueError"]'
+        d = dict(d, rets=[[lab, r[1]] for lab, r in zip(inh, d["rets"])])
+    return f"oscenario {coq_def(d)} {cl(coq_op(o) for o in case['ops'])}"
 
 
 # =============================================================================================
@@ -606,6 +688,44 @@ def receiver_inputs(d):
             else:
                 for j, k in uses_of(dd, i)[:1]:
                     out.append((path + [["body", j]], k))
+    return out
+
+
+def rejects(d, k):
+    """does the definition say that a non-int assigned to macro input k must be refused?  (the channel
+    itself, or a channel it forwards to, is hinted int)"""
+    if k >= len(d["ps"]):
+        return False
+    if d["ps"][k][2] == "int":
+        return True
+    if kept_of(d)[k]:
+        return False
+    for j, kk in uses_of(d, k)[:1]:
+        sub = d["body"][j][1]
+        if sub is not None and kk < len(sub["ps"]):
+            return rejects(sub, kk)
+    return False
+
+
+def rejects_at(d, path, k):
+    cur = d
+    for n, s in enumerate(path):
+        if s[0] == "ui":
+            return n == len(path) - 1 and k == 0 and kept_of(cur)[s[1]] and cur["ps"][s[1]][2] == "int"
+        sub = cur["body"][s[1]][1]
+        if sub is None:
+            return False
+        cur = sub
+    return rejects(cur, k)
+
+
+def refusable_inputs(d):
+    """(path, k) of macro-level inputs (any depth) whose refusal comes from a channel further down"""
+    out = []
+    for path, dd in macro_paths(d):
+        for k, p in enumerate(dd["ps"]):
+            if p[2] != "int" and rejects(dd, k):
+                out.append((path, k))
     return out
 
 
@@ -796,21 +916,77 @@ def gen_ops(rng, d):
     return ops
 
 
+def gen_refusal_def(rng):
+    """an UN-hinted argument used exactly once, forwarded (through 0-2 un-hinted levels) to a nested macro
+    whose argument is hinted int: the macro input is value-linked straight down to a hinted channel"""
+    inner = {"ps": [["q0", rng.randrange(0, 9), "int"]] + ([["q1", 3, None]] if rng.random() < 0.5 else []),
+             "body": [["c0", None, [["p", 0]] + ([["c", 2]] if rng.random() < 0.5 else [])]],
+             "rets": [["r0", ["o", 0, 0]]], "fl": ["auto"], "scrape": False, "self": "self", "kw": False}
+    cur = inner
+    for lvl in range(rng.choice([1, 1, 2, 3])):
+        extra = rng.random() < 0.5
+        ps = [["x%d" % lvl, rng.randrange(0, 9), rng.choice([None, None, "object"])]] + ([["y%d" % lvl, 4, None]] if extra else [])
+        body = [["n0", cur, [["p", 0]]]]
+        if extra:
+            body.append(["c1", None, [["o", 0, 0], ["p", 1]]])
+        cur = {"ps": ps, "body": body, "rets": [["out%d" % lvl, ["o", len(body) - 1, 0]]], "fl": ["auto"],
+               "scrape": False, "self": "self", "kw": rng.random() < 0.5}
+    return cur
+
+
+def gen_bad_ops(rng, d, ops):
+    """sprinkle assignments of a non-int where the definition says they must be refused"""
+    cands = refusable_inputs(d) * 3 + [(p, k) for p, dd in macro_paths(d) for k, q in enumerate(dd["ps"]) if q[2] == "int"]
+    if not cands:
+        return ops
+    out = list(ops)
+    for _ in range(rng.choice([1, 1, 2])):
+        p, k = rng.choice(cands)
+        out.insert(rng.randrange(0, len(out) + 1), ["bad", p, k])
+    return out
+
+
 def generate(ctx):
     rng = ctx.rng
     cases, seen = [], set()
     n = ctx.n(700, 6000)
     while len(cases) < n:
+        fam = rng.random()
         depth = rng.choice([0, 1, 1, 2, 2])             # at most three levels of macros
-        d = gen_def(rng, depth)
+        case = {}
+        if fam < 0.08:
+            d = gen_refusal_def(rng)
+        else:
+            d = gen_def(rng, depth)
         ops = gen_ops(rng, d)
         if rng.random() < 0.45:                              # macro-level histories only
             ops = [o for o in ops if o[0] == "run" or o[1] == []]
-        k = json.dumps([d, ops], sort_keys=True)
+        if fam < 0.08 or rng.random() < 0.25:
+            ops = gen_bad_ops(rng, d, ops)
+        elif rng.random() < 0.03 and d["ps"]:                # a non-int where nothing objects: ends the scenario
+            ops = ops + [["bad", [], rng.randrange(len(d["ps"]))]]
+        case = {"d": d, "ops": ops}
+        if 0.08 <= fam < 0.2 and not malformed(d):
+            # class-based definition DERIVED from another concrete macro class with its own signature
+            b = gen_def(rng, rng.choice([0, 0, 1]))
+            if malformed(b) or dup_returns(b):
+                continue
+            if rng.random() < 0.5 and d["ps"]:               # same first argument, other default / hint, extra arguments
+                b = dict(b, ps=[[d["ps"][0][0], 1 if d["ps"][0][1] is None else d["ps"][0][1] + 1, "int"]])
+                b["body"] = [["c0", None, [["p", 0]]]]
+                b["rets"] = [["c0", ["o", 0, 0]]] if d.get("scrape") else [["o0", ["o", 0, 0]]]
+                b["fl"] = ["auto"]
+                b["scrape"] = bool(d.get("scrape"))
+            if d.get("scrape") and not b.get("scrape"):
+                d["scrape"] = False                          # explicit labels of a parent are inherited by design
+                for o, r in enumerate(d["rets"]):
+                    r[0] = "out%d" % o
+            case["base"] = {"d": b, "first": rng.choice(["base", "base", "derived"])}
+        k = json.dumps(case, sort_keys=True)
         if k in seen:
             continue
         seen.add(k)
-        cases.append({"d": d, "ops": ops})
+        cases.append(case)
     return cases
 
 
@@ -870,6 +1046,12 @@ def failures(case, obs):
         if f["foreign"] or f["root_connected"]:
             bad.append(("not-closed", -1, f"macro at {f['path']}: connections leaving the sibling scope "
                                           f"{f['foreign']}", None))
+    if case.get("base") is not None:
+        bd = case["base"]["d"]
+        want_b = [[[p[0], p[2], None if p[1] is None else [p[1]]] for p in bd["ps"]], [r[0] for r in bd["rets"]]]
+        if ex.get("base_preview") != want_b:
+            bad.append(("interface", -1, f"preview of the PARENT class: {ex.get('base_preview')}, its definition says "
+                                         f"{want_b}", None))
     # ---- value links, after construction and after every operation ------------------------
     def check_links(links, t):
         for kind, path, idx, mv, pv in links:
@@ -880,11 +1062,29 @@ def failures(case, obs):
                                                f"its child channel holds {pv}", (kind, path, idx)))
     check_links(ex["links0"], -1)
     for t, st in enumerate(ex["steps"]):
+        if st.get("missing"):
+            bad.append(("interface", t, f"step {t}: the channel {ops[t][1:3]} of the definition does not exist", None))
+            break
         if "links" in st:
             check_links(st["links"], t)
+        if ops[t][0] == "bad":
+            must = rejects_at(d, ops[t][1], ops[t][2])
+            if st.get("accepted") and must:
+                bad.append(("accepted-bad-value", t, f"step {t}: a non-int was accepted by input {ops[t][2]} at "
+                                                     f"{ops[t][1]} although a channel it stands for is hinted int", None))
+            if "unchanged" in st and not st["unchanged"]:
+                bad.append(("refused-update-left-traces", t, f"step {t}: the assignment was refused (TypeError) but "
+                                                             f"some channel changed", None))
+            continue
         if ops[t][0] != "run":
             continue
         ins = st["ins"]
+        if any(v is not None and not (len(v) == 1 and isinstance(v[0], int) and not isinstance(v[0], bool)) for v in ins):
+            bad.append(("non-int-input", t, f"run {t}: a macro input holds {ins}", None))
+            continue
+        if len(ins) != len(d["ps"]):
+            bad.append(("interface", t, f"run {t}: the macro has {len(ins)} inputs, its definition {len(d['ps'])}", None))
+            continue
         args = [None if v is None else v[0] for v in ins]
         ref = None if any(a is None for a in args) else py_denote(d, args)
         if "outs" not in st:
@@ -916,6 +1116,7 @@ def oracle(case, obs):
     return f"{sig}: {detail}" + (f" (+{len(bad) - 1} more)" if len(bad) > 1 else "")
 
 
+K4 = "C09-scraped-labels-inherited"
 K1 = "S14-child-input-not-mirrored-up"
 K2 = "S14-macro-output-not-mirrored-down"
 K3 = "C09-duplicate-return-replaces-link"
@@ -933,6 +1134,10 @@ def explain(case, failure):
         return any(o[0] == "in" and o[1] != [] and (json.dumps(o[1]), o[2]) in recv and _startswith(o[1], prefix)
                    for o in before)
 
+    if sig in ("refused", "interface") and inherited_labels(case) is not None:
+        return K4
+    if inherited_labels(case) is not None and sig in ("sync-out", "unlinked", "run-differs", "run-failed"):
+        return K4          # consequences of running under the parent's labels
     if sig == "sync-in":
         _, path, idx = key
         return K1 if recv_in_poke(path) else None
@@ -967,10 +1172,16 @@ def nontrivial(case, obs):
 
 
 def key(case):
-    return [case["d"], case["ops"]]
+    return [case["d"], case["ops"], case.get("base")]
 
 
 def shrink_candidates(case):
+    if case.get("base") is not None:
+        d, ops = case["d"], case["ops"]
+        for i in range(len(ops)):
+            yield dict(case, ops=ops[:i] + ops[i + 1:])
+        yield {"d": d, "ops": ops}
+        return
     d, ops = case["d"], case["ops"]
     for i in range(len(ops)):
         yield {"d": d, "ops": ops[:i] + ops[i + 1:]}
@@ -1000,7 +1211,8 @@ def depth_of(d):
 def distribution(results):
     dist = {"depth": {}, "params_used": {"0": 0, "1": 0, "many": 0}, "passthrough": 0, "nested_fed_by_param": 0,
             "flow": {}, "scrape": 0, "defaults": 0, "hints": 0, "refused": 0, "runs": 0, "failed_runs": 0,
-            "ops": {"macro_in": 0, "child_in": 0, "child_out": 0, "macro_out": 0, "run": 0}, "children": {}}
+            "ops": {"macro_in": 0, "child_in": 0, "child_out": 0, "macro_out": 0, "run": 0, "bad": 0},
+            "refused_from_below": 0, "derived_class": {"base": 0, "derived": 0}, "children": {}}
     for c, enc, v, o in results:
         d = c["d"]
         dist["depth"][str(depth_of(d))] = dist["depth"].get(str(depth_of(d)), 0) + 1
@@ -1014,11 +1226,17 @@ def distribution(results):
         dist["nested_fed_by_param"] += sum(1 for e in d["body"] if e[1] is not None and any(a[0] == "p" for a in e[2]))
         dist["flow"][d["fl"][0]] = dist["flow"].get(d["fl"][0], 0) + 1
         dist["scrape"] += bool(d.get("scrape"))
+        if c.get("base") is not None:
+            dist["derived_class"][c["base"]["first"]] += 1
         if isinstance(o, list) and o and o[0] and o[0][0] == "ValueError":
             dist["refused"] += 1
         for op in c["ops"]:
             if op[0] == "run":
                 dist["ops"]["run"] += 1
+            elif op[0] == "bad":
+                dist["ops"]["bad"] += 1
+                dist["refused_from_below"] += (tuple(map(json.dumps, [op[1], op[2]])) in
+                                               {tuple(map(json.dumps, [p, k])) for p, k in refusable_inputs(d)})
             elif op[0] == "in":
                 dist["ops"]["macro_in" if op[1] == [] else "child_in"] += 1
             else:
